@@ -203,7 +203,13 @@ pub fn step(f: &mut Lf, op: &Sx) -> Option<Sx> {
             }
             "delete_edges" => {
                 let e: Vec<EdgeId> = lst(1).iter().map(|x| EdgeId(*x)).collect();
-                f.delete_edges(&e);
+                // the deprecated alias `delete_edge` must behave identically: use it on odd-length lists
+                if e.len() % 2 == 1 {
+                    #[allow(deprecated)]
+                    f.hypergraph.delete_edge(&e);
+                } else {
+                    f.delete_edges(&e);
+                }
                 list(vec![])
             }
             "map_nodes" => {
@@ -263,7 +269,13 @@ pub fn step(f: &mut Lf, op: &Sx) -> Option<Sx> {
                 list(vec![])
             }
             "is_strict" => b(f.hypergraph.is_strict()),
-            "quotient" => match f.quotient() {
+            // (the deprecated alias `quotient_witness` on diagrams with an odd number of nodes)
+            "quotient" => match if f.hypergraph.nodes.len() % 2 == 1 {
+                #[allow(deprecated)]
+                f.quotient_witness()
+            } else {
+                f.quotient()
+            } {
                 Ok(q) => list(vec![Sx::S("Ok"), RFF::new(q.table.0.clone(), q.target).enc()]),
                 Err(q) => list(vec![Sx::S("Err"), RFF::new(q.table.0.clone(), q.target).enc()]),
             },
@@ -382,7 +394,13 @@ pub fn op_from_strict(a: &ROH) -> Sx {
     ok(enc_lf(&LF::from_strict(Cv::<VecKind>::oh(a))))
 }
 pub fn op_to_strict(a: &RLf) -> Sx {
-    ok(enc_oh(&a.to_lf().to_strict()))
+    let f = a.to_lf();
+    // (the deprecated alias `to_open_hypergraph` on diagrams with an odd number of edges)
+    if f.hypergraph.edges.len() % 2 == 1 {
+        #[allow(deprecated)]
+        return ok(enc_oh(&f.to_open_hypergraph()));
+    }
+    ok(enc_oh(&f.to_strict()))
 }
 /// uses the hypergraph part of `a` only
 pub fn op_to_hypergraph(a: &RLf) -> Sx {
